@@ -425,6 +425,41 @@ def summarize(F, key):
                     per_site.append(found)
         if per_site:
             rejects[var] = per_site
+    # flags: named boolean locals that are set in several places (`orphan_accepted`, `evict`, `rollback`) steer what happens later; for every
+    # place that sets one to a constant, the branch outcomes it is control dependent on whose other outcome carries on (with multiplicity:
+    # `if res.is_ok()` -> `if let Ok(Some(_)) = res` tests the same call's verdict twice)
+    flags = {}
+    names_by_local = {int(l): nm for l, nm in (fn.get("names") or {}).items() if str(l).isdigit()}
+    for l, nm in sorted(names_by_local.items()):
+        if l <= fn["argc"] or fn["locals"][l]["s"] != "bool":
+            continue
+        sites = []
+        for bi, b in enumerate(fn["blocks"]):
+            if b["cleanup"] or bi not in live:
+                continue
+            for st in b["st"]:
+                if st["k"] == "assign" and not st["dst"]["p"] and st["dst"]["l"] == l and st["rv"]["r"] == "use" and st["rv"]["a"].get("k") == "const" and "v" in st["rv"]["a"]["v"]:
+                    sites.append((bi, str(st["rv"]["a"]["v"]["v"])))
+        if len(sites) < 2:
+            continue
+        ent = {}
+        for site, val in sites:
+            found = []
+            for bi, (sig, am, els) in conds.items():
+                outs = [(v, t2) for v, t2 in am.items()] + [("else", els)]
+                if len({t2 for _v, t2 in outs}) < 2:
+                    continue
+                for v, t2 in outs:
+                    others = [x for _w, x in outs if x != t2]
+                    if reach(fn, [0], {site}, [(bi, x) for x in others]) is not None and reach(fn, [0], {site}, [(bi, t2)]) is None:
+                        if any(reach(fn, [x], ok_rets0, (), dead) is not None for x in others):
+                            found.append(sig)
+            found.sort(key=lambda g: json.dumps(g))
+            ent.setdefault(val, [])
+            if found not in ent[val]:
+                ent[val].append(found)
+        if any(any(f for f in v) for v in ent.values()):
+            flags[nm] = ent
     # assigns: origins of every value stored into a field of a parameter (`self.size = ..`, `trees.bitmap_accumulator = ..`)
     assigns = {}
     for bi, b in enumerate(fn["blocks"]):
@@ -473,7 +508,7 @@ def summarize(F, key):
         if bi in live and any(re.search(r"^core::(option::Option|result::Result)::[a-z_]+$", nm) for nm in callee_names(t)):
             combs += 1
     return {"must": must, "order": order, "args": args, "guards": guards, "silent": silent, "assigns": assigns, "ret": ret,
-            "consts": const_census(fn), "universe": sorted(universe), "gates": gates, "gates_tested": gates_tested, "combs": combs, "rejects": rejects, "reject_vars": sorted(var_blocks), "each": each, "loops": loops, "phase": phase, "ret_alts": ret_alts,
+            "consts": const_census(fn), "universe": sorted(universe), "gates": gates, "gates_tested": gates_tested, "combs": combs, "rejects": rejects, "reject_vars": sorted(var_blocks), "each": each, "loops": loops, "phase": phase, "ret_alts": ret_alts, "flags": flags,
             "guard_n": sorted([json.loads(g), c] for g, c in gcount.items() if c > 1), "guard_all": dict(gcount)}
 
 
@@ -1295,6 +1330,40 @@ def check(ctx, prop, also=()):
                            ["on the confirmed tree this construction of %s in %s was control dependent on an outcome of %s(%s ; %s) whose other outcome carries on; now no construction of %s depends on it "
                             "(the rejection was hoisted above / detached from the check that justified it)" % (var, k, bs[0], bs[1], bs[2], var)],
                            key_detail="reject:%s:%s:%s" % (var, bs[0], ",".join(sorted(_core(F, bs)))[:70]))
+        # ---- flags: a named boolean is set under the confirmed conditions, not under more of them
+        for nm, bent in b.get("flags", {}).items():
+            cent = cur.get("flags", {}).get(nm)
+            if not cent:
+                continue  # the local is gone or renamed (vacuous)
+            for val, bsites in bent.items():
+                for csigs in cent.get(val, []):
+                    n["flags"] += 1
+                    ccores = [(_core(F, cg), cg) for cg in csigs]
+                    ccores = [(cc, cg) for cc, cg in ccores if cc]
+                    okay = False
+                    worst = None
+                    for bsigs in bsites:
+                        pool = [_core(F, bs) for bs in bsigs]
+                        extra = None
+                        for cc, cg in sorted(ccores, key=lambda x: -len(x[0])):
+                            hit = next((i for i, bc in enumerate(pool) if bc is not None and cc <= bc), None)
+                            if hit is None:
+                                extra = cg
+                                break
+                            pool[hit] = None
+                        if extra is None:
+                            okay = True
+                            break
+                        worst = worst or extra
+                    if okay or worst is None:
+                        continue
+                    if not any(a_.startswith(("call:", "field:")) for a_ in _core(F, worst)):
+                        continue
+                    bad += 1
+                    ctx.record("baseline-flag", "R9", k, "%s: `%s = %s` is decided by the confirmed tests only" % (short(k, 2), nm, val), "violation", [where],
+                               ["on the confirmed tree `%s` was set to %s under %s; now this also depends on %s(%s ; %s) (one more test than confirmed, e.g. the payload of a verdict that was "
+                                "only tested for success), and the other outcome carries on with the flag unset" % (nm, val, [[g[0], g[2] or g[1][:3]] for g in (bsites[0] if bsites else [])][:4], worst[0], worst[1][:6], worst[2][:3])],
+                               key_detail="flag:%s=%s:%s" % (nm, val, worst[0]))
         # ---- assigns
         for field, alts in b.get("assigns", {}).items():
             cur_alts = cur.get("assigns", {}).get(field)
